@@ -154,6 +154,17 @@ func RunE3(env *Env, job *E3Job) *E3Res {
 		hshape = handlesShape(old)
 		st.ResetCounts()
 		st.Armed = job.Fault
+		// a call that spins (reads the drive again and again without getting anywhere) never returns either; the scheduler
+		// only sees blocked threads, so progress is bounded by a generous budget of drive-reader steps per phase
+		budget := func() {
+			blocks := 0
+			if fi, err := os.Stat(st.Drive); err == nil {
+				blocks = int(fi.Size() / 512)
+			}
+			st.ReadSteps, st.BudgetExceeded = 0, false
+			st.ReadBudget = 64*(blocks+64) + 8192
+		}
+		budget()
 		ph.Name = "call"
 		err, pan := Guard(func() error {
 			if isInit {
@@ -167,6 +178,10 @@ func RunE3(env *Env, job *E3Job) *E3Res {
 		st.Counts = map[string]int{}
 		vsync.Quiesce()
 		res.Outcome = errClass(err)
+		if st.BudgetExceeded {
+			viol(fmt.Sprintf("C10|no-progress|phase=call|call=%s|seam=%s", shape, seam), hist+"\nthe call exceeded the drive-reader step budget: it keeps reading the drive without making progress (it would never return)")
+		}
+		budget()
 		if pan != "" {
 			viol(fmt.Sprintf("C10|panic|call=%s|seam=%s|%s", shape, seam, NormErr(fmt.Errorf("%s", strings.SplitN(pan, "\n", 2)[0]))), hist+"\nthe call panicked: "+pan)
 		}
@@ -183,6 +198,10 @@ func RunE3(env *Env, job *E3Job) *E3Res {
 			return nil
 		})
 		vsync.Quiesce()
+		if st.BudgetExceeded {
+			viol(fmt.Sprintf("C10|no-progress|phase=probe|after=%s|seam=%s", shape, seam), hist+"\nthe calls after it (Mkdir, Stat, Create+Write+Close) exceeded the drive-reader step budget: they keep reading the drive without making progress (they would never return)")
+		}
+		st.ReadBudget = 0
 		if pan != "" {
 			viol(fmt.Sprintf("C10|panic-in-probe|after=%s|seam=%s|%s", shape, seam, NormErr(fmt.Errorf("%s", strings.SplitN(pan, "\n", 2)[0]))), hist+"\nthe probe after the call panicked: "+pan)
 		}
